@@ -1811,6 +1811,22 @@ class __compute_selector_default:
 _compute_selector_default = __compute_selector_default()
 
 
+class __compute_selector_names_default:
+    """Same as above for the labels of the objects: a fresh {} per Selector."""
+
+    def __call__(self, p):
+        return {}
+
+    def __repr__(self):
+        return repr(self.sig)
+
+    @property
+    def sig(self):
+        return {}
+
+_compute_selector_names_default = __compute_selector_names_default()
+
+
 class __compute_selector_checking_default:
     def __call__(self, p):
         return len(p.objects) != 0
@@ -1829,7 +1845,7 @@ class _SignatureSelector(Parameter):
     # Needs docstring; why is this a separate mixin?
     _slot_defaults = dict(
         SelectorBase._slot_defaults, _objects=_compute_selector_default,
-        compute_default_fn=None, check_on_set=_compute_selector_checking_default,
+        names=_compute_selector_names_default, compute_default_fn=None, check_on_set=_compute_selector_checking_default,
         allow_None=None, instantiate=False, default=None,
     )
 
@@ -1925,6 +1941,10 @@ class Selector(SelectorBase, _SignatureSelector):
         if isinstance(objects, collections.abc.Mapping):
             self.names = objects
             self._objects = list(objects.values())
+        elif objects is Undefined:
+            # Not declared here: objects and their labels are inherited together
+            self.names = Undefined
+            self._objects = objects
         else:
             self.names = {}
             self._objects = objects
